@@ -28,7 +28,7 @@ fn owned(check: &str, class: &str) -> bool {
 		"C17" => matches!(class, "no_progress" | "hang" | "panic" | "close_failed" | "deadlock"),
 		"C10" => reads || matches!(class, "get_at_mismatch" | "history_mismatch" | "history_order" | "background_error" | "reopen_failed"),
 		"C11" => reads || matches!(class, "background_error" | "reopen_failed" | "close_failed"),
-		"C14" => reads || class.starts_with("horizon_") || matches!(class, "history_mismatch" | "history_order" | "checkpoint_failed" | "restore_failed" | "background_error" | "reopen_failed" | "commit_error" | "standalone_mismatch"),
+		"C14" => reads || class.starts_with("horizon_") || matches!(class, "history_mismatch" | "history_order" | "checkpoint_failed" | "restore_failed" | "background_error" | "reopen_failed" | "commit_error" | "standalone_mismatch" | "spurious_retry" | "spurious_conflict"),
 		_ => true,
 	}
 }
@@ -99,7 +99,9 @@ pub(crate) fn conflict_check(model: &crate::model::Model, failed: &[crate::exec:
 				// transaction is registered as active from begin to commit: its own window
 				// cannot be pruned under it. Only a restore (which rewinds the counters and
 				// resets the map) legitimately produces a retry.
-				if !plan.steps.iter().any(|s| matches!(s, Step::Restore | Step::RestoreB)) {
+				// (C14's plans never keep a transaction open across a restore - the executor
+				// drops what was begun before it - so there a retry has no excuse at all.)
+				if plan.check == "C14" || !plan.steps.iter().any(|s| matches!(s, Step::Restore | Step::RestoreB)) {
 					return Some(Violation::new("spurious_retry", format!("txn{} (start horizon {}) got TransactionRetry: its conflict-tracking window was pruned although it was registered as active the whole time and no restore happened", f.txn, f.start_seq)));
 				}
 			}
@@ -220,7 +222,7 @@ fn judge(plan: &Plan, _tier: Tier) -> Judged {
 				continue;
 			}
 		}
-		if plan.check == "C04" {
+		if plan.check == "C04" || plan.check == "C14" {
 			if let Some(v) = conflict_check(&out.model, &out.failed_commits, p) {
 				j.violation = Some(v);
 				break;
@@ -237,8 +239,9 @@ fn judge(plan: &Plan, _tier: Tier) -> Judged {
 // ---------------------------------------------------------------- C06
 
 /// One logical history; the physical plan is drawn separately.
-fn logical_history(rng: &mut Rng, nkeys: u16, tags: &mut TagGen, n_txns: u64, budget: u32, versioning: bool) -> Vec<Step> {
+fn logical_history(rng: &mut Rng, nkeys: u16, tags: &mut TagGen, n_txns: u64, budget: u32, versioning: bool, held_readers: bool) -> Vec<Step> {
 	let mut steps = Vec::new();
+	let mut reader_open = [false; 4];
 	for i in 0..n_txns {
 		steps.push(Step::Begin { a: 0, mode: ModeS::ReadWrite });
 		let n = rng.range(1, 4);
@@ -268,8 +271,45 @@ fn logical_history(rng: &mut Rng, nkeys: u16, tags: &mut TagGen, n_txns: u64, bu
 		if i % 3 == 2 {
 			steps.push(Step::Probe);
 		}
+		// queries of readers that began earlier and stayed open while later commits, flushes
+		// and compactions happened: their answers, too, depend on nothing but the history
+		// (a reopen placed in between ends them; the executor then skips their steps)
+		if held_readers {
+			for a in [1u8, 3u8] {
+				if !reader_open[a as usize] {
+					if rng.chance(1, 6) {
+						steps.push(Step::Begin { a, mode: ModeS::ReadOnly });
+						reader_open[a as usize] = true;
+					}
+				} else {
+					match rng.below(10) {
+						0..=2 => {
+							for _ in 0..rng.range(1, 3) {
+								steps.push(Step::Get { a, k: rng.below(nkeys as u64) as u16 });
+							}
+						}
+						3 => steps.push(Step::Scan { a, lo: None, hi: None, rev: rng.chance(1, 2) }),
+						4 => {
+							steps.push(Step::DropTxn { a });
+							reader_open[a as usize] = false;
+						}
+						_ => {}
+					}
+				}
+			}
+		}
 	}
 	steps.push(Step::Probe);
+	if held_readers {
+		for a in [1u8, 3u8] {
+			if reader_open[a as usize] {
+				for k in 0..nkeys {
+					steps.push(Step::Get { a, k });
+				}
+				steps.push(Step::Scan { a, lo: None, hi: None, rev: false });
+			}
+		}
+	}
 	steps
 }
 
@@ -310,7 +350,7 @@ fn gen_c06(case_seed: u64, _case: u64, tier: Tier) -> Plan {
 		Tier::Thorough => rng.range(6, 70),
 	};
 	let budget = txn_budget(opts.memtable);
-	let logical = logical_history(&mut rng, nkeys, &mut tags, n, budget, false);
+	let logical = logical_history(&mut rng, nkeys, &mut tags, n, budget, false, true);
 	let a = with_physical(&mut rng, &logical, 45, true);
 	let mut opts_b = random_opts(&mut rng);
 	opts_b.vlog = opts.vlog;
@@ -686,6 +726,9 @@ fn gen_concurrent(case_seed: u64, tier: Tier, id: &str) -> Plan {
 	let mut steps = Vec::new();
 	// a third of C04's cases inject commit-log write errors (rollback paths of the pipeline)
 	let c04_faults = id == "C04" && rng.chance(1, 3);
+	// a quarter of C05's cases: transient commit-log write errors while other commits are in
+	// their apply phase - a failed commit must not move the horizon either
+	let c05_faults = id == "C05" && rng.chance(1, 4);
 	for _ in 0..total {
 		let a = rng.below(n_actors as u64) as u8;
 		match st[a as usize] {
@@ -763,6 +806,14 @@ fn gen_concurrent(case_seed: u64, tier: Tier, id: &str) -> Plan {
 		for _ in 0..n_f {
 			let at = rng.below(steps.len() as u64) as usize;
 			let action = *rng.pick(&[FaultAction::Eio, FaultAction::Enospc, FaultAction::Short(5)]);
+			let spec = FaultSpec { at: FaultAt::Class { kind: FaultKind::Write, class: "wal".into(), nth: rng.range(1, 3) as u32 }, action, persistent: false, spent: false };
+			steps.insert(at, Step::Faults { specs: vec![spec] });
+		}
+	}
+	if c05_faults {
+		for _ in 0..rng.range(1, 4) {
+			let at = rng.below(steps.len() as u64) as usize;
+			let action = *rng.pick(&[FaultAction::Eio, FaultAction::Enospc]);
 			let spec = FaultSpec { at: FaultAt::Class { kind: FaultKind::Write, class: "wal".into(), nth: rng.range(1, 3) as u32 }, action, persistent: false, spent: false };
 			steps.insert(at, Step::Faults { specs: vec![spec] });
 		}
@@ -1143,6 +1194,9 @@ fn gen_c14(case_seed: u64, _case: u64, tier: Tier) -> Plan {
 		_ => {}
 	}
 	opts.cache = *rng.pick(&[0u64, 1024, 16384]);
+	// the conflict map's pruning runs every 1024 commits by default; with the knob it runs
+	// within these short histories, so that a restore meets a map that has been pruned
+	opts.oracle_gc = *rng.pick(&[None, Some(4u32), Some(16)]);
 	let nkeys = rng.range(3, 10) as u16;
 	let keys = key_universe(&mut rng, nkeys as usize, false);
 	let nkeys = keys.len() as u16;
@@ -1365,6 +1419,15 @@ fn gen_c17(case_seed: u64, _case: u64, tier: Tier) -> Plan {
 	p.async_yields = rng.chance(2, 3);
 	p.gate_tasks = true;
 	p.params.insert("close_concurrent".into(), 1);
+	// between the stages of a point read (active memtable / immutable memtables / tables) a
+	// rotation, a flush or a compaction round installs its result: whatever lock the reader
+	// still holds there must not be one the installer needs (a lock-order inversion between the
+	// read path and flush / compaction stops every later commit and close())
+	if rng.chance(1, 2) {
+		let nth = rng.range(1, 12) as u32;
+		p.windows.push(Window { label: "get.post_active".into(), nth, steps: vec![Step::Rotate, Step::FlushOne] });
+		p.windows.push(Window { label: "get.post_immutables".into(), nth: nth + rng.range(0, 3) as u32, steps: vec![Step::FlushAll, Step::CompactRound] });
+	}
 	// windows in the task loops: between "no more immutables" and running=false a commit
 	// rotates the memtable and tries to wake the (still "running") task
 	for label in ["task.flush.pre_idle", "task.level.pre_idle"] {
